@@ -689,11 +689,63 @@ func bodyTerm(b *jBody, in *verifh.Intern) string {
 	return verifh.List(ifs)
 }
 
+// jRequired: the keys every object of the body carries, whatever the values ("mirrors the current RA": a router
+// lifetime of 0 is stated as 0, not left out; a consumer using jq sees null otherwise).
+var jRequired = map[string][]string{
+	"interface":     {"interface", "advertise", "advertisement"},
+	"advertisement": {"current_hop_limit", "managed_configuration", "other_configuration", "router_selection_preference", "router_lifetime_seconds", "reachable_time_milliseconds", "retransmit_timer_milliseconds", "options"},
+	"options":       {"dnssl", "mtu", "prefixes", "rdnss", "routes", "source_link_layer_address", "captive_portal", "pref64"},
+	"prefixes":      {"prefix", "on_link", "autonomous_address_autoconfiguration", "valid_lifetime_seconds", "preferred_lifetime_seconds"},
+	"routes":        {"prefix", "preference", "route_lifetime_seconds"},
+	"rdnss":         {"lifetime_seconds", "servers"},
+	"dnssl":         {"lifetime_seconds", "domain_names"},
+	"pref64":        {"prefix", "lifetime_seconds"},
+}
+
+func jMissing(kind string, v any, path string, missing *[]string) {
+	m, ok := v.(map[string]any)
+	if !ok {
+		return
+	}
+	for _, k := range jRequired[kind] {
+		if _, ok := m[k]; !ok {
+			*missing = append(*missing, path+"."+k)
+		}
+	}
+}
+
 func decodeBody(b []byte) (*jBody, error) {
 	var body jBody
 	dec := json.NewDecoder(strings.NewReader(string(b)))
 	if err := dec.Decode(&body); err != nil {
 		return nil, err
+	}
+	// key set: decoding into a struct cannot tell an absent key from a zero value
+	var raw map[string]any
+	var missing []string
+	if err := json.Unmarshal(b, &raw); err != nil {
+		return nil, err
+	}
+	ifs, _ := raw["interfaces"].([]any)
+	for i, x := range ifs {
+		p := fmt.Sprintf("interfaces[%d]", i)
+		jMissing("interface", x, p, &missing)
+		adv, _ := x.(map[string]any)["advertisement"].(map[string]any)
+		if adv == nil {
+			continue
+		}
+		jMissing("advertisement", adv, p+".advertisement", &missing)
+		opts, _ := adv["options"].(map[string]any)
+		jMissing("options", opts, p+".advertisement.options", &missing)
+		for _, kind := range []string{"prefixes", "routes", "rdnss", "dnssl", "pref64"} {
+			l, _ := opts[kind].([]any)
+			for j, e := range l {
+				jMissing(kind, e, fmt.Sprintf("%s.advertisement.options.%s[%d]", p, kind, j), &missing)
+			}
+		}
+	}
+	if len(missing) > 0 {
+		return nil, fmt.Errorf("the body lacks keys: %s", strings.Join(missing, ", "))
 	}
 	return &body, nil
 }
